@@ -158,7 +158,7 @@ def find_emitters(ctx, rule):
         return cached
     schema, extras = gaf_schema(repo, rule)
     tags_attr = extras["tags_attr"]
-    from ..core import fold_consts, hoist_calls, inline_access_aliases, inlined, tail_inlined, with_str_consts
+    from ..core import desugar_dict_get, fold_consts, hoist_calls, inline_access_aliases, inlined, tail_inlined, with_str_consts
 
     out = []
     for f0 in repo.all_funcs():
@@ -170,7 +170,7 @@ def find_emitters(ctx, rule):
         # helpers of the same module are analysed inlined: statement-level (tail calls, procedures, result helpers) and
         # single-return helpers at expression level
         f = fold_consts(inlined(repo, tail_inlined(repo, hoist_calls(repo, f0), keep=_partial_result)))
-        f = inline_access_aliases(with_str_consts(f))
+        f = inline_access_aliases(desugar_dict_get(with_str_consts(f)))
         recs = record_params(f, schema) | ({"self"} if f.cls == extras["class"] else set())
         if not recs:
             continue
